@@ -49,11 +49,18 @@ impl Segment {
     // Segment::append_batch — ASSUMED here, PROVED in unit offsets ([C01.seg.closed], [C01.seg.append], [C16.append.sizes],
     // [C16.append.counts]): an open segment buffers exactly the batch and charges `batch_size` to its own size and to the
     // three shared size cells, `messages_count` to the three message cells.
+    // LINKED: unit offsets proves exactly this contract of the real function (units/offsets/lemmas.rs, harness
+    // [C16.link.size_eq.append_batch]; an edit here has to be mirrored there). The link added the last three preconditions: the
+    // real function needs them (accumulator arithmetic; the `assert!` of BatchAccumulator::append on contiguity, R9) — the stub had
+    // promised `r is Ok` for every open segment without them.
     #[verifier::external_body]
     pub fn append_batch(&mut self, batch_size: u64, messages_count: u32, batch: &[RetainedMessage]) -> (r: Result<(), IggyError>)
         requires
             batch@.len() > 0, batch@.len() == messages_count,
             old(self).size_bytes + batch_size <= u64::MAX,
+            !old(self).is_closed ==> seg_wf(old(self)),
+            old(self).unsaved_messages is Some ==> old(self).unsaved_messages->0.current_size + batch_size <= u64::MAX,
+            !old(self).is_closed ==> contig(batch@, old(self).start_offset + seg_msgs(old(self)).len()),
         ensures
             old(self).is_closed ==> r is Err,
             !old(self).is_closed ==> r is Ok && seg_msgs(final(self)) == seg_msgs(old(self)) + batch@,
